@@ -7,10 +7,10 @@ git -C /repo worktree add -q --detach $wt HEAD || exit 2
 cd $wt
 find . -name verif_contracts.go -delete
 cp $sd/demo_test.go $pkg/zz_demo_seed_test.go
-tn=$(grep -o 'func Test[A-Za-z0-9_]*' $sd/demo_test.go | head -1 | sed 's/func //')
-base=$(cd $pkg && go test -vet=off -count=1 -timeout 600s -run "^${tn}\$" . 2>&1 | tail -1)
+tn=$(grep -o 'func Test[A-Za-z0-9_]*' $sd/demo_test.go | sed 's/func //' | paste -sd'|')
+base=$(cd $pkg && go test -vet=off -count=1 -timeout 600s -run "^(${tn})\$" . 2>&1 | tail -1)
 git apply $sd/patch.diff || { echo "NOAPPLY"; cd /; git -C /repo worktree remove --force $wt; exit 1; }
-mut=$(cd $pkg && go test -vet=off -count=1 -timeout 600s -run "^${tn}\$" . 2>&1 | tail -1)
+mut=$(cd $pkg && go test -vet=off -count=1 -timeout 600s -run "^(${tn})\$" . 2>&1 | tail -1)
 rm -f $pkg/zz_demo_seed_test.go
 suite=$(go test -vet=off -count=1 -timeout 25m ./... 2>&1 | grep -v "no test files" | tr '\n' ' ')
 cd /
